@@ -204,7 +204,7 @@ func init() {
 func init() {
 	properties["C09"] = Property{
 		Level: "exploration",
-		Rule:  "one case = one step of a history over a forest of 3-6 locations (through a SimpleLocationProvider of core.Locations and through sys.System, both states): facts, rules, removals, EnableRule flags for inherited rules and SetParents (chains, fans, two parents, diamonds); after the step the own view (get, non-inherited search) and the inherited view (inherited search as a multiset, inherited rule list, dispatch of 2 probe events) of EVERY location are compared with the model; plus 16 loop cases (self, length 2, length 3, loop not through the start) in their own child; non-trivial = the forest has >=1 parent edge; distinct by canonical JSON of (entry point, state, history prefix); every third history uses the same fact ids in all locations; events carrying an embedded rule are sent with a Context the client used for another location before; structured `box` values and embedded rules whose action writes into its bound values; `ancestorFault`: a provider that cannot open one ancestor (inherited operations must fail)",
+		Rule:  "one case = one step of a history over a forest of 3-6 locations (through a SimpleLocationProvider of core.Locations and through sys.System, both states): facts, rules, removals, EnableRule flags for inherited rules and SetParents (chains, fans, two parents, diamonds); after the step the own view (get, non-inherited search) and the inherited view (inherited search as a multiset, inherited rule list, dispatch of 2 probe events) of EVERY location are compared with the model; plus 16 loop cases (self, length 2, length 3, loop not through the start) in their own child; non-trivial = the forest has >=1 parent edge; distinct by canonical JSON of (entry point, state, history prefix); every third history uses the same fact ids in all locations; events carrying an embedded rule are sent with a Context the client used for another location before; structured `box` values and embedded rules whose action writes into its bound values; `ancestorFault`: a provider that cannot open one ancestor (inherited operations must fail; a script that swallows the failure still writes to its own location); `failedWalk`: an inherited search failing at an ancestor, swallowed by a condition or a serial action, then Env.AddFact / Env.RemFact / Env.Location",
 		Floor: [2]int{200, 2000},
 		Assumptions: []string{"lib/ref.Loc + lib/ref.Match per location; expected inherited result = union over the transitive parents, each fact once", "rule ids are unique across locations (the same id in child and parent is the documented duplicate-id error, exercised in C10)"},
 		Stages: []Stage{
